@@ -821,12 +821,20 @@ fn check_separated_composition(
 }
 
 const EMPTY_TOKENS: &[LexerToken] = &[];
+// whitespace, blank-line separators and annotations at either end of the input carry no meaning
+fn is_trimmed_token(token_type: TokenType) -> bool {
+    token_type == TokenType::Whitespace
+        || token_type == TokenType::Subexpression
+        || token_type == TokenType::Annotation
+        || token_type == TokenType::LineAnnotation
+}
+
 fn trim_tokens(tokens: &Vec<LexerToken>) -> &[LexerToken] {
     let mut start = 0;
     let mut end = tokens.len();
 
     for token in tokens.iter() {
-        if token.get_token_type() == TokenType::Whitespace || token.get_token_type() == TokenType::Subexpression {
+        if is_trimmed_token(token.get_token_type()) {
             start += 1;
         } else {
             break;
@@ -834,7 +842,7 @@ fn trim_tokens(tokens: &Vec<LexerToken>) -> &[LexerToken] {
     }
 
     for token in tokens.iter().rev() {
-        if token.get_token_type() == TokenType::Whitespace || token.get_token_type() == TokenType::Subexpression {
+        if is_trimmed_token(token.get_token_type()) {
             end -= 1;
         } else {
             break;
